@@ -52,7 +52,7 @@ func main() {
 	case "stress":
 		os.Exit(stressMain(*seed, *tier, *helper, *out))
 	case "run":
-		os.Exit(runMain(*seed, *tier, *out, *replay))
+		os.Exit(runMain(*seed, *tier, *out, *replay, *helper))
 	default:
 		fmt.Fprintln(os.Stderr, "unknown mode", *mode)
 		os.Exit(2)
